@@ -147,6 +147,8 @@ impl<'a, 'b> Sentence<'a, 'b> {
         self.char_pma_states.clear();
         self.type_pma_states.clear();
         self.tags.clear();
+        #[cfg(feature = "tag-prediction")]
+        self.tag_scores.clear();
         self.n_tags = 0;
         self.predictor.take();
         self.str_to_char_pos.clear();
@@ -279,6 +281,8 @@ impl<'a, 'b> Sentence<'a, 'b> {
         self.type_pma_states.clear();
         self.predictor.take();
         self.tags.clear();
+        #[cfg(feature = "tag-prediction")]
+        self.tag_scores.clear();
         self.n_tags = 0;
         Ok(())
     }
@@ -516,6 +520,8 @@ impl<'a, 'b> Sentence<'a, 'b> {
         self.char_pma_states.clear();
         self.type_pma_states.clear();
         self.predictor.take();
+        #[cfg(feature = "tag-prediction")]
+        self.tag_scores.clear();
         self.n_tags = self.tags.len() / self.char_types.len();
         Ok(())
     }
@@ -771,6 +777,8 @@ impl<'a, 'b> Sentence<'a, 'b> {
         self.char_pma_states.clear();
         self.type_pma_states.clear();
         self.predictor.take();
+        #[cfg(feature = "tag-prediction")]
+        self.tag_scores.clear();
         self.n_tags = self.tags.len() / self.char_types.len();
         Ok(())
     }
